@@ -79,6 +79,16 @@ def handle (j : Json) : Json :=
                 ("seen", Json.bool (masterSeen m (jbool j "seen"))),
                 ("sched", Json.str (match schedRoute (jbool j "has_raptor") m (jbool j "seen") with
                                     | .toRaptor => "raptor" | .schedule => "schedule"))]
+  else if op == "rank" then
+    -- one request through the rank process: the dispatcher returned (ret/val) or the try block raised
+    let d : Except Nat Report := match j.getObjVal? "raised" with
+      | .ok (.null) => .ok { out := [], err := [], ret := jnat j "ret", val := (match j.getObjVal? "val" with | .ok (.null) => none | .ok v => some (asNat v) | .error _ => none),
+                             exc := (match j.getObjVal? "exc" with | .ok (.null) => none | .ok v => some (asNat v) | .error _ => none) }
+      | .ok v => .error (asNat v)
+      | .error _ => .error 0
+    let r := rankResult RPVerif.Gen.rankRaisedExit d
+    Json.mkObj [("exit", Json.num (JsonNumber.fromInt r.1)), ("val", match r.2.1 with | some v => jn v | none => Json.null),
+                ("exc", Json.bool r.2.2.isSome), ("state", Json.str (targetState (some r.1)))]
   else if op == "target" then
     Json.str (targetState (match j.getObjVal? "exit" with
                            | .ok .null => none
